@@ -1,5 +1,6 @@
 (* Second-order filter function of filter_functions/numeric.py, polymorphic in Ops:
-     numeric._second_order_integral                     -> nz, em1, frc, soi_core, soi_entry, soi_tab
+     numeric._second_order_integral                     -> nz, big, em1, frc, soi_cases_of, soi_core, soi_entry, soi_tab
+                                                         (soi_core_x: the same formulas selected by exact zeros = the exact integral)
      numeric.calculate_second_order_filter_function     -> nb_mat, so_same, so_cross, so_loop,
                                                            fresh_* / cached path, second_order_ff
      numeric.calculate_frequency_shifts                 -> frequency_shifts
@@ -20,42 +21,53 @@ Variable d : nat.
 (* ------------------------------------------------------------------ _second_order_integral *)
 (* np.not_equal(x, 0) *)
 Definition nz (x : T) : B := ogt Op (oabs Op x) (o0 Op).
+(* np.abs(x*dt) > 1e-8 : the dimensionless tests that select the case (since c3a36ea) *)
+Definition big (thr2 x dt : T) : B := ogt Op (oabs Op (omul Op x dt)) thr2.
 
-(* exp_buf after [util.cexp(x*dt)] and [np.subtract(exp_buf, 1)] *)
-Definition em1 (x dt : T) : Cc := csub Op (cexp Op (omul Op x dt)) (c1 Op).
+(* exp_buf after [util.cexp(x*dt)] and [exp_buf.real = -2*sin(x*dt/2)**2] : e^{i x dt} - 1 *)
+Definition em1 (x dt : T) : Cc :=
+  let s := osin Op (odiv Op (omul Op x dt) (o2 Op)) in
+  (omul Op (oneg Op (o2 Op)) (omul Op s s), osin Op (omul Op x dt)).
 (* frc_buf1 / frc_buf2 : (e^{i x dt} - 1)/x where x != 0, [1j*dt] elsewhere *)
 Definition frc (x dt : T) : Cc := cite Op (nz x) (cdivr Op (em1 x dt) x) (o0 Op, dt).
 
-(* one entry of int_buf; the three denominators are passed separately because the code computes
-   them separately (dEE = Omega_ij - w, EdE = w + Omega_mn, dEdE = Omega_ij + Omega_mn)           *)
-Definition soi_core (dEE EdE dEdE dt : T) : Cc :=
+(* one entry of int_buf given the two case masks; the three denominators are passed separately because the
+   code computes them separately (dEE = Omega_ij - w, EdE = w + Omega_mn, dEdE = Omega_ij + Omega_mn)   *)
+Definition soi_cases_of (mEdE mdEE : B) (dEE EdE dEdE dt : T) : Cc :=
   let frc1 := frc dEE dt in
   let frc2 := frc dEdE dt in
-  (* EdE != 0 : (frc1 - frc2)/EdE *)
+  (* case 1 : (frc1 - frc2)/EdE *)
   let case1 := cdivr Op (csub Op frc1 frc2) EdE in
-  (* EdE == 0, dEE != 0 : exp_buf := (exp_buf + 1)*dt ; frc1.real += exp_buf.imag ;
+  (* case 2 : exp_buf := (exp_buf + 1)*dt ; frc1.real += exp_buf.imag ;
      frc1.imag -= exp_buf.real ; frc1 /= dEE *)
   let e := cadd Op (em1 dEE dt) (c1 Op) in
   let ex := (omul Op (fst e) dt, omul Op (snd e) dt) in
   let case2 := cdivr Op (oadd Op (fst frc1) (snd ex), osub Op (snd frc1) (fst ex)) dEE in
-  (* EdE == 0, dEE == 0 : dt**2/2 *)
+  (* case 3 : dt**2/2 *)
   let case3 := (odiv Op (omul Op dt dt) (o2 Op), o0 Op) in
-  cite Op (nz EdE) case1 (cite Op (nz dEE) case2 case3).
+  cite Op mEdE case1 (cite Op mdEE case2 case3).
+
+(* the code: case 1 where |EdE dt| > thr2 ; case 2 where |EdE dt| <= thr2 < |dEE dt| ; case 3 otherwise *)
+Definition soi_core (thr2 dEE EdE dEdE dt : T) : Cc :=
+  soi_cases_of (big thr2 EdE dt) (big thr2 dEE dt) dEE EdE dEdE dt.
+(* mathematical reference (the selection by exact zeros of the code before c3a36ea): the exact integral *)
+Definition soi_core_x (dEE EdE dEdE dt : T) : Cc :=
+  soi_cases_of (nz EdE) (nz dEE) dEE EdE dEdE dt.
 
 (* int_buf[o,i,j,m,n] for the frequency w = E[o] and eigenvalues ev of the segment:
      dE = subtract.outer(ev, ev); dEdE = add.outer(dE, dE); EdE = add.outer(E, dE);
      dEE = subtract.outer(-E, -dE)                                                           *)
-Definition soi_entry (w evi evj evm evn dt : T) : Cc :=
+Definition soi_entry (thr2 w evi evj evm evn dt : T) : Cc :=
   let dEij := osub Op evi evj in
   let dEmn := osub Op evm evn in
-  soi_core (osub Op (oneg Op w) (oneg Op dEij)) (oadd Op w dEmn) (oadd Op dEij dEmn) dt.
+  soi_core thr2 (osub Op (oneg Op w) (oneg Op dEij)) (oadd Op w dEmn) (oadd Op dEij dEmn) dt.
 
 (* table [i][j] -> matrix (m,n) *)
 Definition Tab4 : Type := list (list Matc).
 Definition t4get (t : Tab4) (i j m n : nat) : Cc := mget Op (nth j (nth i t []) []) m n.
-Definition soi_tab (w : T) (ev : list T) (dt : T) : Tab4 :=
+Definition soi_tab (thr2 w : T) (ev : list T) (dt : T) : Tab4 :=
   build d (fun i => build d (fun j => mbuild d d (fun m n =>
-    soi_entry w (vg Op ev i) (vg Op ev j) (vg Op ev m) (vg Op ev n) dt))).
+    soi_entry thr2 w (vg Op ev i) (vg Op ev j) (vg Op ev m) (vg Op ev n) dt))).
 
 (* ------------------------------------------------------------------ rank-5 arrays [a][b][k][l][o] *)
 Definition Arr5 : Type := list (list (list (list (list Cc)))).
@@ -101,16 +113,16 @@ Definition so_cross (na nk no : nat) (step cum : A3) : Arr5 :=
 Definition SegData : Type := (list T * T * list Matc * list Matc * A3)%type.
 
 (* the loop over segments: [first] <-> g == 0 ; "rest non-empty" <-> g < len(dt) - 1 *)
-Fixpoint so_loop (na nk no : nat) (omega : list T) (first : bool) (segs : list SegData)
+Fixpoint so_loop (thr2 : T) (na nk no : nat) (omega : list T) (first : bool) (segs : list SegData)
          (cum : A3) (acc : Arr5) : Arr5 :=
   match segs with
   | [] => acc
   | (ev, dt, NT, BT, step) :: rest =>
-      let tabs := map (fun w => soi_tab w ev dt) omega in
+      let tabs := map (fun w => soi_tab thr2 w ev dt) omega in
       let acc1 := a5add na na nk nk no acc (so_same na nk no NT BT tabs) in
       let acc2 := if first then acc1 else a5add na na nk nk no acc1 (so_cross na nk no step cum) in
       let cum' := match rest with [] => cum | _ => a3add Op na nk no cum step end in
-      so_loop na nk no omega false rest cum' acc2
+      so_loop thr2 na nk no omega false rest cum' acc2
   end.
 
 (* ------------------------------------------------------------------ the two code paths *)
@@ -148,7 +160,7 @@ Fixpoint zip_segs (evs : list (list T)) (dts : list T) (NTs BTs : list (list Mat
   end.
 
 (* numeric.calculate_second_order_filter_function *)
-Definition second_order_ff (thr : T) (evs : list (list T)) (Vs Qs : list Matc) (omega : list T)
+Definition second_order_ff (thr thr2 : T) (evs : list (list T)) (Vs Qs : list Matc) (omega : list T)
            (basis nopers : list Matc) (ncoeffs : list (list T)) (dts ts : list T) (im : Interm) : Arr5 :=
   let na := length nopers in let nk := length basis in let no := length omega in
   let ncs := transpose_coeffs Op (length dts) ncoeffs in
@@ -157,14 +169,14 @@ Definition second_order_ff (thr : T) (evs : list (list T)) (Vs Qs : list Matc) (
               | Some x => x
               | None => (fresh_BT Vs Qs basis, fresh_steps thr evs Vs Qs ts dts omega basis nopers ncs)
               end in
-  so_loop na nk no omega true (zip_segs evs dts NTs (fst rest) (snd rest))
+  so_loop thr2 na nk no omega true (zip_segs evs dts NTs (fst rest) (snd rest))
           (a3zero Op na nk no) (a5zero na na nk nk no).
 
 (* PulseSequence.get_filter_function(omega, order=2) on a fresh pulse: propagators and times from
    numeric.diagonalize / PulseSequence.t, no intermediates *)
-Definition second_order_from_eig (thr : T) (evs : list (list T)) (Vs : list Matc) (omega : list T)
+Definition second_order_from_eig (thr thr2 : T) (evs : list (list T)) (Vs : list Matc) (omega : list T)
            (basis nopers : list Matc) (ncoeffs : list (list T)) (dts : list T) : Arr5 :=
-  second_order_ff thr evs Vs (propagators Op d evs Vs dts) omega basis nopers ncoeffs dts (times Op dts) (None, None).
+  second_order_ff thr thr2 evs Vs (propagators Op d evs Vs dts) omega basis nopers ncoeffs dts (times Op dts) (None, None).
 
 (* the intermediates cached by calculate_control_matrix_from_scratch(cache_intermediates=True) *)
 Definition cached_intermediates (thr : T) (evs : list (list T)) (Vs Qs : list Matc) (omega : list T)
